@@ -282,6 +282,9 @@ Proof.
   injection H as <-. kp. rewrite upd_length. repeat split; auto.
 Qed.
 
+Lemma spush_heap s v s1 : spush s v = Some s1 -> st_heap s1 = st_heap s.
+Proof. unfold spush. destruct (vs_push _ _) as [k []]; intros H; inversion H; reflexivity. Qed.
+
 Lemma spop_keep s s1 v : spop s = (s1, v) -> keep s s1.
 Proof.
   unfold spop, vs_pop. destruct (vcount (st_stack s) =? 0); intros H; cbv beta iota zeta in H;
